@@ -121,6 +121,7 @@ func checkC24(w *World, r *Run) {
 	checkC24Copy(w, r, ruleCopy, mat)
 	checkC24Dedup(w, r, ruleDedup, mat)
 	checkC24CrossStorageRedirect(w, r)
+	checkTxReuseOnlyForOwnDatabase(w, r)
 	checkC24CopyClass(w, r)
 	checkCopyDateConditions(w, r)
 	r.NotCovered("that two storages configured for different buckets do not share state underneath (configuration); equality of a cross-storage copy's result with a same-storage copy beyond option forwarding (ETag of multipart sources differs by design)")
